@@ -18,7 +18,7 @@ ASSUME = [
 ]
 
 
-def write_start(path, n, qc, pc, pq, blobs):
+def write_start(path, n, qc, pc, pq, blobs, normalise=False):
     """craft a start file holding one phase-space record with displaced Gaussian blobs"""
     d = pq / (n - 1)
     q = (qc - pq / 2) + np.arange(n) * d
@@ -28,6 +28,8 @@ def write_start(path, n, qc, pc, pq, blobs):
         Q, Pp = np.meshgrid(q, p, indexing="ij")
         r2 = (Q - mq) ** 2 + (Pp - mp) ** 2
         g += amp * np.exp(-0.5 * r2 / (sg * sg))    # smooth (untruncated): Simpson-based stored moments equal plain moments
+    if normalise:
+        g /= g.sum() * d * d
     raw = path + ".raw"
     g.astype("<f4").tofile(raw)
     tool = build.build_tool("h5tool")
@@ -132,7 +134,7 @@ def run_case(args):
 def run(ctx):
     from checks.c10 import XdgPool
     ctx.assumptions = ASSUME
-    ctx.rule = ("API: (RF model linear/sinusoidal, grid 48..256, order 2-4, steps per period 20..2000, grid shifts, 1-2 blobs with centroid radius <= 2 sigma at any phase) iterated over a full period, centroid checked after every step; "
+    ctx.rule = ("API: (RF model linear/sinusoidal, single bunch or (a quarter) train of 2-3 bunches each with its own start and judged on its own, grid 48..256, order 2-4, steps per period 20..2000, grid shifts, 1-2 blobs with centroid radius <= 2 sigma at any phase) iterated over a full period, centroid checked after every step; "
                 "program: the same through a crafted start file and --outstep 1, with alpha0 or SynchrotronFrequency; distinct by parameters and start centroid")
     th = ctx.tier == "thorough"
     core.run_harness(ctx, "c03", 1600 if th else 96)
@@ -155,4 +157,4 @@ def run(ctx):
         for key, what, det in res["viol"]:
             ctx.violation(key, what, dict(det, cmd=res["cmd"], options=res["opts"]))
         ctx.sample(dict(options=res["opts"], start_centroid=res["c0"], records=res["records"]))
-    ctx.min_events = {"steps_observed": 5000, "periods_closed": 40, "program_runs": n // 2, "program_periods_closed": n // 3}
+    ctx.min_events = {"steps_observed": 5000, "periods_closed": 40, "periods_closed_bunch>0": 10, "program_runs": n // 2, "program_periods_closed": n // 3}
